@@ -71,11 +71,29 @@ class _RMethod:
         self.name = name
 
 
+class _KindV:
+    """dtype.kind of a mask handed in by the caller: one of b, u, i, f - narrowed by the tests made on it"""
+
+
 class VennInterp(ResultInterp):
     def __init__(self, *a, **kw):
         super().__init__(*a, **kw)
         self.root.width_events = []
         self.root.skeleton_calls = []
+        self.root.kinds = {"b", "u", "i", "f"}
+
+    def _kind_test(self, members, node):
+        """is the callers' dtype kind among `members`: decided by what earlier tests left open, else a named split"""
+        k = self.root.kinds
+        ms = set(members) & {"b", "u", "i", "f"}
+        if k <= ms:
+            return True
+        if not (k & ms):
+            return False
+        u = self.root.__dict__.setdefault("_kind_unknowns", {}).setdefault(frozenset(ms), Unknown("dtype-kind:" + "".join(sorted(ms))))
+        d = self.decide(node, u)
+        self.root.kinds = (k & ms) if d else (k - ms)
+        return d
 
     # -- masks --------------------------------------------------------------------------
     def _mask(self, v) -> Optional[Regions]:
@@ -87,11 +105,17 @@ class VennInterp(ResultInterp):
                 return self.root.__dict__.get("ndim", Unknown("ndim"))
             if attr == "dtype" and not base.raw:
                 return Sym("builtin:bool")  # result of a logical operation / comparison
+            if attr == "dtype":
+                return Sym("dtypeof:raw-mask")
             if attr in ("shape", "dtype", "size"):
                 return Sym(f"mask.{attr}")
             return _RMethod(base, attr)
         if isinstance(base, Count):
             return _RMethod(base, attr)
+        if isinstance(base, Sym) and base.name == "dtypeof:raw-mask" and attr == "kind":
+            return _KindV()
+        if isinstance(base, Sym) and base.name == "builtin:bool" and attr == "kind":
+            return "b"
         return super().get_attr(base, attr, node)
 
     def apply(self, fv, args, kwargs, node):
@@ -136,7 +160,13 @@ class VennInterp(ResultInterp):
         if name in ("numpy.logical_not", "numpy.invert") and a and isinstance(a[0], Regions):
             return Regions(frozenset(a[0].universe) - a[0].regs, a[0].universe)
         if name in ("numpy.sum", "numpy.count_nonzero") and a and isinstance(a[0], Regions) and not kwargs and len(a) == 1:
-            return Count(Rat(a[0].card()), a[0].raw and name == "numpy.sum")
+            return Count(Rat(a[0].card()), a[0].raw and name == "numpy.sum" and "u" in self.root.kinds)
+        if name == "numpy.sum" and len(a) == 1 and isinstance(a[0], Regions) and set(kwargs) == {"dtype"} and isinstance(kwargs["dtype"], Sym):
+            dt = kwargs["dtype"].name.split(".")[-1].split(":")[-1]
+            if dt in ("int64", "int32", "int_", "intp", "int", "float64", "float32", "float", "longlong"):
+                return Count(Rat(a[0].card()), False)  # accumulated in a signed / floating type
+            if dt in ("uint64", "uint32", "uint", "uintp"):
+                return Count(Rat(a[0].card()), True)
         if name in ("numpy.atleast_1d", "numpy.asarray", "numpy.ascontiguousarray", "numpy.array") and a and isinstance(a[0], Regions):
             return a[0]
         if name in ("float", "int", "builtin:float", "builtin:int", "numpy.float64", "numpy.int64") and a and isinstance(a[0], Count):
@@ -209,6 +239,12 @@ class VennInterp(ResultInterp):
         return super().binop_hook(op, l, r, node)
 
     def compare_hook(self, op, l, r, node):
+        if isinstance(l, _KindV) and isinstance(op, (ast.In, ast.NotIn)) and isinstance(r, (str, tuple, list, set, frozenset)) and all(isinstance(x, str) for x in r):
+            t = self._kind_test("".join(r), node)
+            return t if isinstance(op, ast.In) else not t
+        if isinstance(l, _KindV) and isinstance(op, (ast.Eq, ast.NotEq)) and isinstance(r, str):
+            t = self._kind_test(r, node)
+            return t if isinstance(op, ast.Eq) else not t
         if isinstance(l, (Count, Rat, int, Fraction, float)) and isinstance(r, (Count, Rat, int, Fraction, float)):
             d = _rat(l) - _rat(r)
             if d.num.is_zero() and not d.den.is_zero():
@@ -251,6 +287,8 @@ def path_zero_set(out: Outcome):
     equalities: list[Poly] = []
     for node, v, d in out.decisions:
         pv = getattr(v, "pv", None)
+        if pv is None and str(getattr(v, "tag", "")).startswith("dtype-kind:"):
+            continue  # a class of inputs (the dtype of the caller's masks), not a condition on the counts
         if pv is None:
             return zero, None
         opn, diff = pv
